@@ -30,6 +30,12 @@ def dangling_refs(g: dict):
     out = []
 
     def walk(x, owner, depth=0):
+        if isinstance(x, tuple):
+            try:
+                if x in g:
+                    return  # a proper reference (keys may be nested tuples, e.g. ((name, 0), 0))
+            except TypeError:
+                pass
         if isinstance(x, tuple) and x and isinstance(x[0], str) and len(x) >= 2:
             looks = x[0] in heads or _HEXNAME.search(x[0]) is not None
             if looks and all(isinstance(y, (int, np.integer, tuple, str)) for y in x[1:]):
